@@ -30,13 +30,15 @@ func randHex(r *Rand, n int) string {
 }
 
 func randU64(r *Rand) uint64 {
-	switch r.Intn(6) {
-	case 0:
+	switch r.Intn(12) {
+	case 0, 1:
 		return 0
-	case 1:
+	case 2, 3:
 		return uint64(r.Intn(64))
-	case 2:
+	case 4, 5:
 		return r.U64() // full range
+	case 6:
+		return boundary(r) // the largest value, the 31/32/53/63-bit boundaries, one
 	default:
 		return uint64(r.Intn(1 << 20))
 	}
@@ -158,15 +160,20 @@ func genChain(r *Rand) (ChainDesc, uint64, string) {
 	spes := []uint64{32, 32, 32, 8, 4, 2, 1, 6}
 	c := ChainDesc{SPE: spes[r.Intn(len(spes))], GenesisVersion: uint32(r.U64()), GVR: randHex(r, 32)}
 	var e uint64
-	switch r.Intn(5) {
-	case 0:
+	switch r.Intn(15) {
+	case 0, 1, 2:
 		e = uint64(r.Intn(3))
-	case 1:
+	case 3, 4:
 		e = uint64(r.Intn(1 << 30))
+	case 5: // slots beyond 2^53, beyond 2^63, the last ones a uint64 holds
+		e = highEpoch(r, c.SPE)
 	default:
 		e = uint64(r.Range(2, 500))
 	}
-	ver := func() uint64 { return uint64(uint32(r.U64())) }
+	if r.Chance(1, 12) {
+		c.GenesisVersion = uint32(boundaryVersion(r))
+	}
+	ver := func() uint64 { return boundaryVersion(r) }
 	style := ""
 	switch k := r.Intn(10); {
 	case k < 5: // a fork at every epoch around the duty: any epoch mistake changes the domain
@@ -235,8 +242,14 @@ func gen(r *Rand, i int) Input {
 	batch, batchStyle := genBatch(r, pool, isSingle(in.Kind))
 	in.Batch = batch
 	in.Tags = []string{forkStyle, slotStyle, poolStyle, batchStyle}
-	if r.Chance(1, 15) {
+	if r.Chance(1, 9) {
+		// a chain spec without one of the optional domain types: more often than not the one that
+		// this request's duty is signed with (the signer must refuse, not make one up)
 		in.Absent = []string{[]string{"sync", "syncsel", "contrib", "builder"}[r.Intn(4)]}
+		if own, ok := map[string]string{"syncroots": "sync", "syncsel": "syncsel", "contributions": "contrib", "registration": "builder"}[in.Kind]; ok && r.Chance(3, 4) {
+			in.Absent = []string{own}
+			in.Tags = append(in.Tags, "absent:domain-type-of-this-duty")
+		}
 	}
 	if r.Chance(1, 30) {
 		in.DomFail = true
@@ -245,8 +258,23 @@ func gen(r *Rand, i int) Input {
 	return in
 }
 
-// genContent fills in the message of a request whose kind, slot, epoch and batch are chosen.
+// genContent fills in the message; one request in eight then has EVERY content field at zero, or
+// at the largest value of its type.
 func genContent(r *Rand, in *Req, chain ChainDesc, e uint64) (tags []string) {
+	tags = genContentFields(r, in, chain, e)
+	switch r.Intn(16) {
+	case 0:
+		extremeContent(in, false)
+		tags = append(tags, "content:every-field-zero")
+	case 1:
+		extremeContent(in, true)
+		tags = append(tags, "content:every-field-at-maximum")
+	}
+	return tags
+}
+
+// genContentFields fills in the message of a request whose kind, slot, epoch and batch are chosen.
+func genContentFields(r *Rand, in *Req, chain ChainDesc, e uint64) (tags []string) {
 	slot := in.Slot
 	n := len(in.Batch)
 	switch in.Kind {
@@ -254,6 +282,12 @@ func genContent(r *Rand, in *Req, chain ChainDesc, e uint64) (tags []string) {
 		in.BlockRoot, in.SourceRoot, in.TargetRoot = randHex(r, 32), randHex(r, 32), randHex(r, 32)
 		in.TargetEpoch = e // the attester only signs data whose target epoch is the duty's (C01)
 		in.SourceEpoch = e - min(e, uint64(r.Intn(3)))
+		switch r.Intn(8) {
+		case 0:
+			in.SourceEpoch = 0
+		case 1:
+			in.SourceEpoch = r.U64() % (e + 1)
+		}
 		if in.Kind == "attestation" {
 			in.Idxs = []uint64{randU64(r)}
 		} else {
@@ -286,7 +320,11 @@ func genContent(r *Rand, in *Req, chain ChainDesc, e uint64) (tags []string) {
 			tags = append(tags, "indices:one-fewer")
 		}
 		for j := 0; j < m; j++ {
-			in.Idxs = append(in.Idxs, uint64(r.Intn(4)))
+			if r.Chance(1, 10) { // the signer is not the one to judge the index
+				in.Idxs = append(in.Idxs, randU64(r))
+			} else {
+				in.Idxs = append(in.Idxs, uint64(r.Intn(4)))
+			}
 		}
 	case "aggregate", "syncroots":
 		in.Root = randHex(r, 32)
@@ -300,6 +338,9 @@ func genContent(r *Rand, in *Req, chain ChainDesc, e uint64) (tags []string) {
 		mixed := r.Chance(1, 6)
 		for j := 0; j < m; j++ {
 			c := Contrib{Aggregator: randU64(r), Slot: slot, BlockRoot: bbr, Sub: uint64(r.Intn(4)), Bits: randHex(r, 16), Signature: randHex(r, 96), Proof: randHex(r, 96)}
+			if r.Chance(1, 10) {
+				c.Sub = randU64(r)
+			}
 			if mixed && j > 0 {
 				// a contribution of another slot, often across the epoch boundary
 				switch r.Intn(3) {
@@ -316,7 +357,8 @@ func genContent(r *Rand, in *Req, chain ChainDesc, e uint64) (tags []string) {
 			in.Contribs = append(in.Contribs, c)
 		}
 	case "registration":
-		in.Reg = &Reg{FeeRecipient: randHex(r, 20), GasLimit: randU64(r), Timestamp: uint64(r.Intn(1 << 40)), Pubkey: randHex(r, 48)}
+		in.Reg = &Reg{FeeRecipient: randHex(r, 20), GasLimit: randU64(r), Pubkey: randHex(r, 48)}
+		in.Reg.Timestamp, in.Reg.Nanos, in.Reg.Zone = genRegTime(r)
 		if r.Chance(1, 12) {
 			in.RegMode = []string{"nil", "nilv1", "version"}[r.Intn(3)]
 		}
@@ -342,8 +384,10 @@ func genSessionChain(r *Rand) (ChainDesc, uint64, string) {
 	e := uint64(r.Range(3, 400))
 	if r.Chance(1, 6) {
 		e = uint64(r.Range(1<<20, 1<<30))
+	} else if r.Chance(1, 12) {
+		e = highEpoch(r, c.SPE)
 	}
-	ver := func() uint64 { return uint64(uint32(r.U64())) }
+	ver := func() uint64 { return boundaryVersion(r) }
 	style := ""
 	switch k := r.Intn(20); {
 	case k < 8: // a fork at every epoch of the window
